@@ -503,3 +503,7 @@ def gdb_frames(cmd, cwd=None, n=3, timeout=60):
 
 def cc1_cmd(cc, src, out, extra=()):
     return [cc, '-cc1', '-cc1-input', src, '-cc1-output', out, src] + list(extra)
+
+
+def norm_ws(t):
+    return ' '.join(t.split())
